@@ -16,6 +16,11 @@ from fractions import Fraction as Fr
 import fw
 
 LEAN_PROPS = ["NmlVerif.Props.C16"]
+# helper theorems that carry the argument (audited for axioms as well)
+EXTRA_THEOREMS = ["NmlVerif.Section.run_spec", "NmlVerif.Section.sectionPhase_spec", "NmlVerif.Section.sectD_spec",
+                  "NmlVerif.Section.sectKids_spec", "NmlVerif.Section.hypB_sound", "NmlVerif.Section.buildTree_sound",
+                  "NmlVerif.Section.lookup_adjacency", "NmlVerif.Section.genName_inj",
+                  "NmlVerif.Section.actualProximal_sound", "NmlVerif.Section.Refines.implied_iff"]
 LEVEL = "proof"
 RULE = ("cells = random segment trees / forests (1-40 segments; exhaustive parent structures up to 6 (quick) or 7 "
         "(thorough) segments; chains longer than the recursion limit; caterpillars) with arbitrary non-contiguous "
@@ -281,7 +286,10 @@ def gen_case(rng, big=False):
         for p in rng.sample(ids, min(len(ids), rng.randint(0, 3))):
             adj.append([p, rng.sample(ids, rng.randint(0, min(3, len(ids))))])
         cache = {"adj": adj} if _adj_small(adj) else None
-    return finish_case(rng, segs, cache=cache, fail_frames=(rng.random() < 0.04))
+    root = None
+    if rng.random() < 0.02:                               # malformed stream: a root id that is no segment
+        root = max(s["id"] for s in segs) + 1 + rng.randrange(5)
+    return finish_case(rng, segs, root=root, cache=cache, fail_frames=(rng.random() < 0.04))
 
 
 def _adj_small(adj):
@@ -494,6 +502,14 @@ def oracle(case, real):
     ref = Ref(case["segs"])
     reach = ref.reach(case["root"])
     before, after = real["before"], real["after"]
+    if case["root"] not in ref.by_id:
+        # malformed call (the root is no segment of the cell): the property does not apply; the call must refuse
+        # and leave the cell alone
+        if real["res"] != "ValueError":
+            fails.append(("bad-root-accepted", "root %s is no segment, outcome %s" % (case["root"], real["res"])))
+        elif before != after:
+            fails.append(("bad-root-changed-cell", ""))
+        return fails, reach
     if real["res"] != "ok":
         return [("exception:" + real["res"], "the call raised %s" % real["res"])], reach
     old_ids = [g.get("id") for g in before["groups"]]
@@ -681,7 +697,8 @@ def check_case(ctx, case, mout):
     ctx.count("n:%s" % (len(case["segs"]) if len(case["segs"]) < 8 else ("8-40" if len(case["segs"]) <= 40 else "41+")))
     ctx.count("cache:" + ("none" if case["cache"] is None else case["cache"] if isinstance(case["cache"], str) else sorted(case["cache"])[0]))
     ctx.count("flags:reorder=%d,optimise=%d" % (case["reorder"], case["optimise"]))
-    ctx.count("root:" + ("true-root" if ref.by_id.get(case["root"], {}).get("parent") is None else "inner"))
+    ctx.count("root:" + ("no-such-segment" if case["root"] not in ref.by_id else
+                         "true-root" if ref.by_id[case["root"]]["parent"] is None else "inner"))
     if real["alias"]:
         ctx.count("explicit-proximal-aliases-a-distal-object", real["alias"])
     if mout.get("hyp"):
@@ -804,10 +821,10 @@ def run(ctx):
     ctx.extra["exhaustive"] = True
     ctx.extra["exhaustive_scope"] = "all parent structures (parent(k) in 0..k-1) with <= %d segments" % nmax
     # random cells
-    for _ in range(ctx.n(500, 5000) * ctx.search_mult):
+    for _ in range(ctx.n(1200, 12000) * ctx.search_mult):
         cases.append(gen_case(rng, big=thorough))
     # caterpillars on both sides of the frame limit, chains longer than the recursion limit
-    for _ in range(ctx.n(4, 20)):
+    for _ in range(ctx.n(6, 40)):
         cases.append(caterpillar_case(rng, rng.randint(20, 120), fail=rng.random() < 0.5, frac1=rng.random() < 0.5))
     cases.append(chain_case(rng, ctx.n(1300, 5000)))
     cases.append(chain_case(rng, ctx.n(300, 1500), frac1=False))
